@@ -164,7 +164,29 @@ def eval_real(case):
     return mkres(case, nt=True, classes=['engine-B', 'mode:' + mode, 'threads:%d' % threads], fails=fails)
 
 
+def eval_slow(case):
+    """Engine B, wall clock: many silent targets queued behind few threads.  Every target must still get its block."""
+    n = case['silent']
+    specs = [dict(HEALTHY['good'], banner='SSH-2.0-OpenSSH_9.3')] + [{'faults': [['connect', '*', 'stall']]} for _ in range(n)]
+    peers = [fakenet.peer_from_spec(sp) for sp in specs]
+    fails = []
+    with drive.RealServers(peers) as rs:
+        tf = drive.tmpfile('\n'.join('127.0.0.1:%d' % p for p in rs.ports) + '\n')
+        try:
+            r = drive.run_subprocess(MODES[case['mode']] + ['--skip-rate-test', '-t', '1', '--threads', str(case['threads']), '-T', tf], timeout=300)
+        finally:
+            os.unlink(tf)
+    got = split(r.out, case['mode'])
+    if r.code != 1:
+        fails.append(['slow-list-exit-status-%d' % r.code, 'silent %d threads %d: tail %r' % (n, case['threads'], r.out[-200:])])
+    if got is None or len(got) != n + 1:
+        fails.append(['slow-list-number-of-result-blocks', 'silent %d threads %d mode %s: %r blocks for %d targets' % (n, case['threads'], case['mode'], None if got is None else len(got), n + 1)])
+    return mkres(case, nt=True, classes=['engine-B', 'wall-clock', 'threads:%d' % case['threads']], fails=fails)
+
+
 def eval_case(case):
+    if case.get('kind') == 'slow':
+        return eval_slow(case)
     if case.get('kind') == 'real':
         return eval_real(case)
     kinds, mode, threads = list(case['kinds']), case['mode'], case['threads']
@@ -278,8 +300,9 @@ def run(ctx):
     for _ in range(8 if ctx.quick else 120):
         b = [x for x in REAL_OK if x not in ('bad-block-size', 'bad-padding', 'probe-bad-block', 'ssh1-bad-crc')]
         real.append({'kind': 'real', 'kinds': [rng.choice(sorted(HEALTHY)), rng.choice(b), rng.choice(sorted(HEALTHY)), rng.choice(b)], 'mode': rng.choice(['text', 'json']), 'threads': rng.choice([1, 2, 4])})
-    ctx.map(real, chunk=1)
-    ctx.note(traces_validated_against_impl=len(real))
+    slow = [{'kind': 'slow', 'silent': 8, 'threads': 1, 'mode': 'json'}] + ([] if ctx.quick else [{'kind': 'slow', 'silent': 8, 'threads': 1, 'mode': 'text'}, {'kind': 'slow', 'silent': 12, 'threads': 2, 'mode': 'json'}, {'kind': 'slow', 'silent': 20, 'threads': 3, 'mode': 'text'}])
+    ctx.map(real + slow, chunk=1)
+    ctx.note(traces_validated_against_impl=len(real) + len(slow))
     ctx.note(failure_archetypes=sorted(BAD), healthy_archetypes=sorted(HEALTHY))
     return ctx.finish('fault_enumeration', 'target lists of length 2-5 mixing 4 healthy archetypes with 16 failure archetypes (unresolvable, refused, connect timeout, silent, early close, close after banner, garbage banner, bad block size, bad padding, truncated KEXINIT, wrong first packet, probe-phase garbage / close / bad block, SSH-1 bad CRC / truncation): every failure archetype in every position of lists of length 2 and 3 (exhaustive), pairs of failures, Hypothesis lists, 1..n threads, text / batch / JSON, harness-owned schedules plus free-running runs; non-trivial = at least one healthy and one failing target',
                       assumptions=['block i is attributed to the i-th target to finish (known from the scheduler trace); blocks are compared with fresh single-target -T runs', 'an out-of-range port in the targets file is not a failure archetype of the statement (C18 covers it)'])
